@@ -10,9 +10,9 @@ CLAIMED = {
          "Import relation is an oracle in the solver build (the import walk is C14, not applicable) and the real walk in native replay; cursor columns are concrete per harness (a symbolic column could not be decided), recorded spans symbolic." + COMMON_NOTE),
  "C02": ("DESIGN.md §4 C02, §9", "Override chains (length 2..3 over same file / conftest levels / plugin / third-party): one position query per harness on the real find_fixture_definition / find_fixture_or_definition_at_position with the recorded parameter / name span symbolic, plus find_references_for_definition of every link against the reference binding; decided by CBMC per arm.",
          "Chains of length <= 3, concrete generated texts, one concrete cursor column per harness." + COMMON_NOTE),
- "C04": ("DESIGN.md §4 C04, §9", "Cross-check of two real code paths per world: a usage is listed by find_references_for_definition(D) iff find_fixture_definition on it lands on D, no duplicates, unresolved usages nowhere; reverse index == usages after analyze_file histories; CLI unused list vs reference sets.",
+ "C04": ("DESIGN.md §4 C04, §9", "Cross-check of two real code paths per world: a usage is listed by find_references_for_definition(D) iff find_fixture_definition on it lands on D, no duplicates, unresolved usages nowhere; reverse index == usages after analyze_file histories; CLI unused list vs reference sets. Lean arms (one call of the real find_references_for_definition on a concrete world, compared with the reference lookup of pytest's rules): override-with-usage-above and sibling-registered-first layouts.",
          "Worlds: shadowing, override, sibling-first and usage-above-override layouts; go-to-definition on a recorded usage is the call sequence find_fixture_definition performs after locating the usage; reverse-index histories use the empty text for the real analysis step; code-lens / call-hierarchy formatting (handlers) not encoded." + COMMON_NOTE),
- "C05": ("DESIGN.md §4 C05, §9", "Cross-check without reference model: for each world arm the definition picked by navigation (find_closest_definition), outgoing calls (resolve_fixture_for_file), implementation/prepare (find_fixture_or_definition_at_position) and the entry in get_available_fixtures are compared for every value of the symbolic attributes; at most one entry per name.",
+ "C05": ("DESIGN.md §4 C05, §9", "Cross-check without reference model: for each world arm the definition picked by navigation (find_closest_definition), outgoing calls (resolve_fixture_for_file), implementation/prepare (find_fixture_or_definition_at_position) and the entry in get_available_fixtures are compared for every value of the symbolic attributes; at most one entry per name. Lean arm: one call of the real get_available_fixtures on the concrete import-vs-root layout compared with the reference lookup.",
          "std HashSet inside compute_available_fixtures limits worlds to one fixture name; get_imported_fixtures replaced by the import oracle." + COMMON_NOTE),
  "C06": ("DESIGN.md §4 C06, §9", "Histories through the real analyze_file: the first version's state is put into the index from what a fresh index records for it (generated natively from the current tree), then the REAL analyze_file re-analyses the file with a second version; every map's records for the file (definitions, reverse definition index, usages, reverse usage index, imports) must equal a fresh index on the new version. Each history is one fully concrete symbolic execution (no symbolic input: a selector over two re-analyses did not fit into 14 GB).",
          "Second versions are restricted to the empty text and a comment-only text (cleanup of everything the first version recorded: rename/removal of fixtures, of usages, same name defined twice); second versions with real statements put a non-trivial AST under the symbolic executor and did not finish (kept under props=ATTEMPT). First versions: C_F, C_FF, C_F_MOVED, C_SCOPED, U_TG." + COMMON_NOTE),
@@ -34,9 +34,9 @@ CLAIMED = {
          "<= 3 fixture names, <= 3 definitions per arm (std HashMap/HashSet cost); one fixed hash seed." + COMMON_NOTE),
  "C18": ("DESIGN.md §4 C18, §9", "Offered set, two halves. (1) Visible set: for each world arm the per-file view get_available_fixtures has at most one entry per name and that entry is the definition navigation resolves to (shared with C05; symbolic lines, import bit, third-party-is-plugin flag). (2) Filter algebra and ordering of src/providers/completion.rs (text of is_fixture_excluded / should_exclude_fixture / fixture_sort_priority / filter_and_enrich_fixtures extracted from the current tree at every run): excluded <=> being edited, or already declared, or (inside a fixture) of narrower scope — decided for every candidate name over {a,b,c}, scope, origin flags, declared list, edited name and edited scope; sort priority a strictly monotone function of the origin class (same file < conftest < plugin < third-party) for all flag combinations; the list pipeline on one concrete 4-candidate case.",
          "get_completion_context (where completion is offered) walks the AST and is out of solver reach (harnesses kept under props=ATTEMPT); make_sort_text / make_fixture_detail go through format! (stubbed; their text is not encoded); candidate names are one letter; CompletionItem construction in the handlers is outside." + COMMON_NOTE),
- "C19": ("DESIGN.md §4 C19, §9.8", "Configuration half only: Config::from_raw (text of src/config/mod.rs extracted from the current tree at every run, because from_raw / RawConfig are private) executed concretely through CBMC on two raw tables: unknown diagnostic codes (unknown word, wrong case, empty string) are dropped one by one while the documented codes around them stay disabled and the other settings arrive unchanged; an invalid glob between two valid ones is dropped alone, the valid ones still match, and the diagnostic codes next to it stay in force. One symbolic harness: for EVERY valid UTF-8 string of <= 6 bytes as an unknown code, from_raw does not panic, drops it, and keeps the documented code after it. is_diagnostic_disabled / should_exclude / should_skip_plugin are the real functions.",
+ "C19": ("DESIGN.md §4 C19, §9.8", "Configuration half only: Config::from_raw (text of src/config/mod.rs extracted from the current tree at every run, because from_raw / RawConfig are private) executed concretely through CBMC on two raw tables: unknown diagnostic codes (two unknown words, the empty string) are dropped one by one while the documented codes around them stay disabled and the other settings arrive unchanged; an invalid glob between two valid ones is dropped alone, the valid ones still match, and the diagnostic codes next to it stay in force. Symbolic harnesses: for EVERY valid UTF-8 string of exactly 6 and of exactly 7 bytes (5 in the thorough tier) as an unknown code, from_raw does not panic, drops it, and keeps the documented code after it. is_diagnostic_disabled / should_exclude / should_skip_plugin are the real functions.",
          "Concrete tables (a symbolic 14-byte code text exceeded 12 GB: kept as props=ATTEMPT); the TOML parse of untrusted text (Config::parse), publish_diagnostics_for_file, did_open / did_change sequencing and 'the diagnostics the client last received' live behind the tokio Backend / a full TOML parser and are NOT encoded — a change there is invisible to this check." + COMMON_NOTE),
- "C20": ("DESIGN.md §4 C20, §9", "Library half: get_unused_fixtures lists D iff D is not third-party, not autouse and find_references_for_definition(D) is empty, each (file, name) once, sorted — decided per world arm with autouse flags symbolic.",
+ "C20": ("DESIGN.md §4 C20, §9", "Library half: get_unused_fixtures lists D iff D is not third-party, not autouse and find_references_for_definition(D) is empty, each (file, name) once, sorted — decided per world arm with autouse flags symbolic. Lean arms: one call of the real get_unused_fixtures on concrete override layouts compared with the reference lookup.",
          "Text/JSON rendering and exit codes (src/main.rs) not encoded; <= 3 definitions per world (std HashMap<(PathBuf,String)> cost)." + COMMON_NOTE),
 }
 READY = set(os.environ.get("PLSV_READY", "").split(",")) if os.environ.get("PLSV_READY") else None
